@@ -631,6 +631,7 @@ func TestFixed(t *testing.T) {
 	vh.Fixed(t, prop, "direct-kill-after-child-died", directPlan(ChildSpec{ExitAfterMs: 300, ExitCode: 1}, readyDev, await, Step{DelayMs: 1000, Op: "kill"}), run)
 	vh.Fixed(t, prop, "direct-device-dies-while-handling-start", directPlan(lives, DeviceSpec{InitialState: "STANDBY", ReportPid: true, ExitOnDoneMs: -1, Transitions: map[string]TransitionSpec{"START": {Outcome: "crash"}}}, await, conf, start, Step{DelayMs: 300, Op: "kill"}), run)
 	vh.Fixed(t, prop, "direct-device-dies-while-handling-configure", directPlan(ChildSpec{ExitAfterMs: -1, Forks: 1}, DeviceSpec{InitialState: "STANDBY", ReportPid: true, ExitOnDoneMs: -1, Transitions: map[string]TransitionSpec{"CONFIGURE": {Outcome: "crash"}}}, await, conf), run)
+	vh.Fixed(t, prop, "direct-second-kill-while-the-first-waits-for-the-device-to-exit", directPlan(lives, DeviceSpec{InitialState: "STANDBY", ReportPid: true, ExitOnDoneMs: 1200}, await, conf, Step{DelayMs: 200, Op: "kill", Async: true}, Step{DelayMs: 150, Op: "kill"}), run)
 	vh.Fixed(t, prop, "direct-kill-device-hangs-on-stop", directPlan(lives, DeviceSpec{InitialState: "STANDBY", ReportPid: true, ExitOnDoneMs: 0, Transitions: map[string]TransitionSpec{"STOP": {Outcome: "hang"}}}, await, conf, start, Step{DelayMs: 300, Op: "kill"}), run)
 }
 
